@@ -10,7 +10,9 @@ from dataclasses import asdict, dataclass, field
 from . import AnalysisError
 
 VERIF = os.path.dirname(os.path.dirname(os.path.abspath(__file__)))
-EVIDENCE_DIR = os.path.join(VERIF, "evidence")
+# ASPIRE_SA_EVIDENCE_DIR: development override (tools/run_seeded.py runs many scratch copies in parallel);
+# the registered commands never set it.
+EVIDENCE_DIR = os.environ.get("ASPIRE_SA_EVIDENCE_DIR") or os.path.join(VERIF, "evidence")
 KNOWN_FILE = os.path.join(VERIF, "known_findings.json")
 
 PROVED, REFUTED, UNKNOWN = "PROVED", "REFUTED", "UNKNOWN"
